@@ -68,12 +68,14 @@ class RawH2Server(H2Server):
         super().__init__(respond="manual", auto_settings=False)
         self.script = script
         self.done = False
+        self.close_after = True
 
     def request_complete(self, conn, s):
         if not self.done:
             self.done = True
             conn.out(self.script)
-            conn.tr.shutdown()
+            if self.close_after:
+                conn.tr.shutdown()
 
     def after_input(self, conn):
         pass
